@@ -24,6 +24,7 @@ def configs(tier):
 
 def run(ctx):
     physics.explore(ctx, ID, configs(ctx.tier))
+    physics.explore_register(ctx, ID, ctx.tier == "quick")
 
 
 def replay(case):
